@@ -66,7 +66,7 @@ PROVED = {
     "C09": "the *of handler files its error exactly when the extracted comparison holds for the number of definitions that validate individually in the stated child context, with that count, the total and the failing definitions' errors; the comparisons are the documented ones; None skips them; a `readonly` rule inside a definition is checked whether or not the document was normalized (the definition's validator does not inherit the flag). The recorded finding is exhibited as a witness on the model (C09_refuted_unknown_fields_inside_definition_containers). LIMIT: the child context is the implementation's (allow_unknown=True for the definition's validator), so the theorem shares the recorded finding on containers inside definitions; the recount oracle judges it as the property states it.",
     "C10": "child configuration inherits every option and both registries; the root document is the outermost one at every depth; at each of the five sites the filed children are exactly the child validator's errors; bubbling edits schema paths only; update is forwarded; by induction over the whole model every recorded error strictly extends the validator's document path. PARTIAL: equality with standalone validation is decided by the oracle; with normalization on it is REFUTED for read-only fields on the faithful model (C10_refuted_readonly_in_a_sub_document_with_normalization, the recorded finding).",
     "C11": "for ARBITRARY error lists the tree returns at every path exactly the errors with that path incl. nested children, holds nothing else, has a node exactly for prefixes of stored paths, is empty iff no errors, and look-ups by definition agree; for validator outputs the tree content is the flattening.",
-    "C12": "document paths extend the validator's path; code and rule come from one definition; value and constraint are the field's value and the resolved rule's constraint; children iff group definition; for every validator at any depth each error of its list sits at its path plus one field and stores the sub-document's value under that field or None (validate_errors_located, induction over the whole model); code and rule of one definition for every error at every depth, children included (validate_errors_defined). PARTIAL: schema-path resolution is decided by the oracle.",
+    "C12": "document paths extend the validator's path; code and rule come from one definition; value and constraint are the field's value and the resolved rule's constraint; children iff group definition; for every validator at any depth each error of its list sits at its path plus one field and stores the sub-document's value under that field or None (validate_errors_located, induction over the whole model); code and rule of one definition for every error at every depth, children included (validate_errors_defined); a validator's own errors have schema path = its schema path + allow_unknown crumbs + [field; rule] (validate_schema_paths_located). PARTIAL: resolution of child errors' schema paths after bubbling, and through registry references, is decided by the oracle.",
     "C13": "add() deep-copies first (extracted shape), rendering is a function of the error list and leaves it untouched, one insertion adds one message, a leaf error adds it under its document path only, and for error forests of ANY nesting the number of rendered messages is: one per non-group error, one per *of error plus what its definitions' errors contribute, for a group error what its children contribute (render_count). PARTIAL: WHERE nested messages are placed is decided by the node-by-node diff against the real handler.",
     "C14": "giving ANY of a schema level's field rule sets by the name of a registry entry that holds them leaves validate(document, update, normalize) and normalized(document) of a fresh validator unchanged -- verdict, processed document, every error with paths / constraint / children, an escaping exception -- for every document, configuration and fuel (C14_fields_by_name_process_alike, through every rule handler, the normalization pipeline and every child validator); per use site: same errors, excludes, inherited *of rules, required set. PARTIAL: references INSIDE constraints (sub-schemas, bulk rule sets, items) show in the constraint attribute of errors and are decided by the inline-vs-reference oracle, as are acceptance and self-referential definitions.",
     "C15": "canonical schemas of any nesting are fixed points of expand through every recursion position; an <of>_<rule> key expands to the documented list, split at the first underscore. PARTIAL: equality of outcomes is decided by the variant oracle on the real code.",
